@@ -1,4 +1,5 @@
 import FastgoModel.Props.C02
+import FastgoModel.Reader.FaithfulCheck
 /-!
 # C03 — malformed input: no invented data, io.EOF only after a complete stream, sticky stdlib errors
 
@@ -83,6 +84,29 @@ theorem C03_sticky (D : Decoder δ) (fuel : Nat) (r : RState δ) (want : Nat) (e
   obtain ⟨h1, h2⟩ := read_err_state D fuel r want e h
   exact read_sticky D fuel' _ want' e h1 h2
 
+/-! ### the session check of the F correspondence
+  `checkFaithful` judges one complete session of the REAL Reader (any level, chunking, Read sizes) by the specification
+  inflater itself. A session that passes it has (i) delivered a prefix of the specification's output
+  (`C03_checked_session_no_fabrication`), (ii) ended in io.EOF only on a complete stream, completely delivered, with the
+  source exactly behind the final block (`C03_checked_session_eof`; this is also C02's completeness and C05's position
+  for that session), (iii) reported CorruptInputError only when the strict specification does not accept the input and the
+  input is not a cut valid stream (`C03_checked_session_corrupt`). -/
+theorem C03_checked_session_no_fabrication (src delivered : List UInt8) (k : EndKind) (consumed : Nat) (cut : Bool)
+    (h : checkFaithful src delivered k consumed cut = true) :
+    delivered <+: (Spec.inflate .permissive [] src).out.toList :=
+  checkFaithful_prefix src delivered k consumed cut h
+
+theorem C03_checked_session_eof (src delivered : List UInt8) (consumed : Nat) (cut : Bool)
+    (h : checkFaithful src delivered .eof consumed cut = true) :
+    ∃ out rest st, Spec.inflate .permissive [] src = .done out rest st ∧ delivered = out.toList ∧
+      consumed = (8 * src.length - rest.length + 7) / 8 :=
+  checkFaithful_eof src delivered consumed cut h
+
+theorem C03_checked_session_corrupt (src delivered : List UInt8) (consumed : Nat) (cut : Bool)
+    (h : checkFaithful src delivered .corrupt consumed cut = true) :
+    (Spec.inflate .strict [] src).isDone = false ∧ cut = false :=
+  checkFaithful_corrupt src delivered consumed cut h
+
 /-! Non-vacuity: the stream of C02's example cut after 9 bytes (source then reports io.EOF) read through the
     model with `batchDecoder`: no data, io.ErrUnexpectedEOF, and the same again; the same stream with its first
     byte replaced by 0x07 (reserved block type 3): CorruptInputError, twice. -/
@@ -105,3 +129,6 @@ end Fastgo.Reader
 #print axioms Fastgo.Reader.C03_eof_only_if_complete
 #print axioms Fastgo.Reader.C03_error_kinds
 #print axioms Fastgo.Reader.C03_sticky
+#print axioms Fastgo.Reader.C03_checked_session_no_fabrication
+#print axioms Fastgo.Reader.C03_checked_session_eof
+#print axioms Fastgo.Reader.C03_checked_session_corrupt
